@@ -169,7 +169,17 @@ class Borealis(TDM):
                         f"'{type(cmds[1].op).__name__}' on mode(s) {wires_1}."
                     )
 
-            seq.extend(circuit[len(seq) :])
+            # the program ended before the device layout did: only loop offsets that the user
+            # left out can be appended, any other missing operation is a topology mismatch
+            for cmd in circuit[len(seq) :]:
+                if not self._is_loop_offset(cmd.op):
+                    raise CircuitError(
+                        "Compilation not possible due to incompatible topologies. Expected "
+                        f"'{type(cmd.op).__name__}' on mode(s) {({m.ind for m in cmd.reg})}, but "
+                        "the program has no further operations."
+                    )
+                seq.append(cmd)
+                self._user_offsets.append(False)
 
         # pass the circuit sequence to the general TMD compiler to make sure that
         # it corresponds to the correct device layout in the specification
